@@ -24,6 +24,10 @@ impl<K, V, S> IndexMap<K, V, S> {
     #[verifier::external_body]
     pub fn insert(&mut self, k: K, v: V) -> (r: Option<V>) ensures final(self)@ == old(self)@.insert(k, v) { unimplemented!() }
     #[verifier::external_body]
+    pub fn swap_remove(&mut self, k: &K) -> (r: Option<V>) ensures final(self)@ == old(self)@.remove(*k) { unimplemented!() }
+    #[verifier::external_body]
+    pub fn is_empty(&self) -> (r: bool) ensures r == (self@.dom() =~= Set::<K>::empty()) { unimplemented!() }
+    #[verifier::external_body]
     pub fn get(&self, k: &K) -> (r: Option<&V>)
         ensures match r { Some(v) => self@.contains_key(*k) && *v == self@[*k], None => !self@.contains_key(*k) } { unimplemented!() }
 }
@@ -43,6 +47,10 @@ impl<T> VecDeque<T> {
     #[verifier::external_body] pub fn push_back(&mut self, v: T) ensures final(self)@ == old(self)@.push(v) { unimplemented!() }
     #[verifier::external_body] pub fn push_front(&mut self, v: T) ensures final(self)@ == seq![v] + old(self)@ { unimplemented!() }
     #[verifier::external_body] pub fn make_contiguous(&mut self) -> (r: &mut [T]) { unimplemented!() }
+    #[verifier::external_body] pub fn len(&self) -> (r: usize) ensures r == self@.len() { unimplemented!() }
+    #[verifier::external_body] pub fn pop_back(&mut self) -> (r: Option<T>)
+        ensures old(self)@.len() == 0 ==> r is None && final(self)@ == old(self)@,
+                old(self)@.len() > 0 ==> r == Some(old(self)@.last()) && final(self)@ == old(self)@.drop_last() { unimplemented!() }
 }
 // `vec![..].into()` : Vec<T> -> VecDeque<T>
 pub trait IntoDeque<T> { fn into_deque(self) -> VecDeque<T>; }
@@ -55,7 +63,7 @@ impl<T> IntoDeque<T> for Vec<T> { #[verifier::external_body] fn into_deque(self)
 pub fn search_skeleton_for_first_key_type<'b>(skeleton: &'b [ClauseIndexInfo], retracted: &'b Option<Vec<ClauseIndexInfo>>,
     key_type: OptArgIndexKeyType, append_or_prepend: AppendOrPrepend) -> (r: Option<&'b OptArgIndexKey>) { unimplemented!() }
 // unreachable!(): panics; nothing is written afterwards (R18)
-#[verifier::external_body] pub fn unreachable_abort() ensures false { unimplemented!() }
+#[verifier::external_body] pub fn unreachable_abort<T>() -> (r: T) ensures false { unimplemented!() }
 #[verifier::external_body] pub fn debug_assert_shim(b: bool) { unimplemented!() }
 
 pub assume_specification<T> [<[T]>::swap] (s: &mut [T], a: usize, b: usize)
@@ -73,3 +81,16 @@ impl Clone for OptArgIndexKey { #[verifier::external_body] fn clone(&self) -> (r
 impl Copy for OptArgIndexKey {}
 impl Clone for OptArgIndexKeyType { #[verifier::external_body] fn clone(&self) -> (r: Self) ensures r == *self { unimplemented!() } }
 impl Copy for OptArgIndexKeyType {}
+
+// the Indexer impls' `remove_instruction_with_offset` (retain/position over the deque): the choice sequence
+// changes, nothing else
+pub struct StaticCodeIndices;
+pub struct DynamicCodeIndices;
+impl StaticCodeIndices { #[verifier::external_body] pub fn remove_instruction_with_offset(code: &mut VecDeque<IndexedChoiceInstruction>, offset: usize) { unimplemented!() } }
+impl DynamicCodeIndices { #[verifier::external_body] pub fn remove_instruction_with_offset(code: &mut VecDeque<usize>, offset: usize) { unimplemented!() } }
+
+// `once(&constant).chain(overlapping.iter()).map(|l| HeapCellValue::from(*l))`: the key of the constant, then the key
+// of its alternative encoding if there is one
+#[verifier::external_body]
+pub fn literal_keys(constant: Literal, overlapping: Option<Literal>) -> (r: Vec<HeapCellValue>)
+    ensures r@.len() == (if overlapping is Some { 2int } else { 1int }) { unimplemented!() }
